@@ -371,7 +371,32 @@ class Importance(CellModifierInput):
                         tree["classifier"].padding = padding
                     tree = self._real_tree[particle]
                     tree["classifier"].particles.particles = set(part_set)
-                    tree["data"].update_with_new_values(data)
+                    # an input whose values did not change is written as it was read
+                    if not self._has_same_values(tree["data"], data):
+                        tree["data"].update_with_new_values(data)
+
+    @staticmethod
+    def _has_same_values(list_node, new_values):
+        """
+        Whether the list already holds exactly these values.
+
+        :param list_node: the values of the data-block input.
+        :type list_node: ListNode
+        :param new_values: the ValueNodes collected from the cells.
+        :type new_values: list
+        :rtype: bool
+        """
+        old_values = [node.value for node in list_node]
+        values = [node.value for node in new_values]
+        if len(old_values) != len(values):
+            return False
+        for old, new in zip(old_values, values):
+            if old is None or new is None:
+                if old is not new:
+                    return False
+            elif not math.isclose(old, new, rel_tol=rel_tol, abs_tol=abs_tol):
+                return False
+        return True
 
     def _try_combine_values(self, new_vals, particle_pairings):
         covered_parts = set()
